@@ -292,8 +292,10 @@ def updateList (op : Opts) (s : TS) (new : List Nat) : TS :=
 /-- After a batch of actions: truncate the query, re-run the search if it changed, render. -/
 def afterActions (op : Opts) (before : TS) (s : TS) : TS :=
   let s := { s with input := s.input.take maxPatternLength, cx := min s.cx (min s.input.length maxPatternLength) }
+  -- the list is rendered (and the scroll offset settled) with the old results first; the new result
+  -- list arrives from the matcher afterwards
   let s := if s.input != before.input ∨ s.sort != before.sort ∨ s.excluded != before.excluded
-    then updateList op s ((op.resultsOf s.input s.sort).filter (fun i => !s.excluded.contains i)) else s
+    then updateList op (constrain op s) ((op.resultsOf s.input s.sort).filter (fun i => !s.excluded.contains i)) else s
   constrain op s
 
 /-- One POSTed action list. -/
